@@ -10,6 +10,7 @@ import gen
 import oracle
 import lines as linegen
 import graphcheck
+import avmspec
 
 HERE = os.path.dirname(os.path.abspath(__file__))
 ROOT = os.path.dirname(HERE)
@@ -611,6 +612,59 @@ def run_c05(ctx):
     generic_run(ctx, cmp_for(), set(), extra=extra)
 
 
+C19_IMM = {"ecdsa_verify": ["Secp256k1", "Secp256r1"], "ecdsa_pk_decompress": ["Secp256k1", "Secp256r1"], "ecdsa_pk_recover": ["Secp256k1"],
+           "base64_decode": ["URLEncoding", "StdEncoding"], "json_ref": ["JSONString", "JSONUint64", "JSONObject"], "vrf_verify": ["VrfAlgorand"],
+           "block": ["BlkSeed", "BlkTimestamp"], "arg": ["0"], "load": ["1"], "store": ["1"], "gload": ["0 1"], "gloads": ["1"], "gaid": ["0"],
+           "intc": ["0"], "bytec": ["0"], "pushint": ["7"], "int": ["7"], "byte": ["0x01"], "pushbytes": ["0x01"], "addr": ["7777777777777777777777777777777777777777777777777774MSJUVU"],
+           "method": ['"a()void"'], "intcblock": ["1 2"], "bytecblock": ["0x01 0x02"], "dig": ["1"], "cover": ["1"], "uncover": ["1"], "bury": ["1"],
+           "popn": ["1"], "dupn": ["1"], "frame_dig": ["1"], "frame_bury": ["0"], "proto": ["1 1"], "extract": ["0 1"], "substring": ["0 1"],
+           "replace2": ["0"], "gitxn": ["0 Fee"], "gtxn": ["0 Fee"], "txn": ["Fee"], "gtxns": ["Fee"], "itxn": ["Fee"], "itxn_field": ["Fee"],
+           "txna": ["Accounts 0"], "gtxna": ["0 Accounts 0"], "gtxnsa": ["Accounts 0"], "itxna": ["Logs 0"], "gitxna": ["0 Logs 0"],
+           "txnas": ["Accounts"], "gtxnas": ["0 Accounts"], "gtxnsas": ["Accounts"], "itxnas": ["Logs"], "gitxnas": ["0 Logs"],
+           "global": ["MinTxnFee"], "asset_holding_get": ["AssetBalance"], "asset_params_get": ["AssetTotal"], "app_params_get": ["AppCreator"],
+           "acct_params_get": ["AcctBalance"], "pushbytess": ["0x01 0x02"], "pushints": ["1 2"], "switch": ["l1 l1"], "match": ["l1 l1"],
+           "b": ["l1"], "bz": ["l1"], "bnz": ["l1"], "callsub": ["l1"]}
+
+
+def c19_directed(rng, tier):
+    """directed program-level cases for the AVM oracle: each opcode of the AVM table alone in a small program under
+    versions around its introduction and around the versions at which its cost changes; each field under versions around its
+    introduction through every opcode that can carry it; mode-specific opcodes and too-new opcodes in UNREACHABLE code"""
+    ops, _curves, fields = avmspec.tables()
+    out = []
+
+    def prog(v, body):
+        return (f"#pragma version {v}\n" if v is not None else "") + "\n".join(body) + "\nl1:\nint 1\nreturn"
+
+    for mn, (iv, modes, costs) in ops.items():
+        change = sorted({1, 2, 8, iv, max(iv - 1, 1)} | {k + 1 for k in range(1, 8) if costs[k] != costs[k - 1] or modes[k] != modes[k - 1]} | {k for k in range(1, 8) if costs[k] != costs[k - 1]})
+        vs_ = change if tier != "quick" else rng.sample(change, min(3, len(change)))
+        for v in vs_:
+            for imm in C19_IMM.get(mn, [""]):
+                out.append(prog(v, [(mn + " " + imm).strip()]))
+    carriers = {"txn": ["txn", "gtxn 0", "gtxns", "itxn_field"], "global": ["global"], "asset_holding": ["asset_holding_get"],
+                "asset_params": ["asset_params_get"], "app_params": ["app_params_get"], "acct_params": ["acct_params_get"]}
+    arr = set(fields.get("txna", {}))
+    for tbl, cs in carriers.items():
+        for name, fv in fields[tbl].items():
+            for c in cs:
+                for v in sorted({max(fv - 1, 1), fv, 8} if tier == "quick" else set(range(1, 9))):
+                    out.append(prog(v, [f"{c} {name}" + (" 0" if name in arr and c != "gtxns" and c != "itxn_field" else "")]))
+    modal = [mn for mn, (_iv, modes, _c) in ops.items() if modes[7] != "A"]
+    for k in range(40 if tier == "quick" else 400):
+        a = rng.choice(modal)
+        b = rng.choice(modal + ["shl", "box_del", "bsqrt", "gtxns Fee"])
+        v = rng.choice([None, 1, 2, 3, 5, 6, 8])
+        live = ["int 1", rng.choice(["return", "err", "b l1"])]
+        shape = rng.randrange(4)
+        body = live + [a + " " + C19_IMM.get(a, [""])[0]] if shape == 0 else \
+            [b + " " + C19_IMM.get(b.split()[0], [""])[0] if " " not in b else b] + live + [a + " " + C19_IMM.get(a, [""])[0]] if shape == 1 else \
+            live + [a + " " + C19_IMM.get(a, [""])[0], b if " " in b else b + " " + C19_IMM.get(b, [""])[0]] if shape == 2 else \
+            ["callsub l1"] + live + ["dead:", a + " " + C19_IMM.get(a, [""])[0], "b dead"]
+        out.append(prog(v, [x.strip() for x in body]))
+    return out
+
+
 def c19_extra(ctx):
     """program-level decision logic: version flags, mixed mode, contract type, block costs for declared versions 1..8"""
     import re as _re
@@ -638,9 +692,33 @@ def c19_extra(ctx):
             lines.insert(k, rng.choice(extra_ops))
             lines.insert(k + 1, "pop") if rng.random() < 0.5 else None
             reqs.append(("cfg", f"v{len(reqs)}", "\n".join(lines), []))
+    reqs += [("cfg", f"d{n}", t, []) for n, t in enumerate(c19_directed(rng, ctx["tier"]))]
+    if ctx.get("replay"):
+        try:
+            rp = json.load(open(ctx["replay"]))
+            if rp.get("program"):
+                reqs.insert(0, ("cfg", "replay", rp["program"], []))
+        except Exception:  # pylint: disable=broad-except
+            pass
     m, i = corr.run_both(reqs)
     nd = 0
+    nv = 0
     for kind, rid, text, _ in reqs:
+        # independent oracle: the implementation's report against the AVM tables (Spec/AvmTables.v printed by Spec/AvmDump.v)
+        try:
+            bad = avmspec.check(text, i[rid])
+        except Exception as e:  # pylint: disable=broad-except
+            bad = []
+            ctx["cov"]["avm_oracle_error"] = str(e)[:300]
+        if bad and nv < 3:
+            nv += 1
+            small = text
+            try:
+                small = shrink(text, lambda t: bool(avmspec.check(t, corr.run_both([("cfg", "x", t, [])], shards=1)[1]["x"])))
+                bad = avmspec.check(small, corr.run_both([("cfg", "x", small, [])], shards=1)[1]["x"]) or bad
+            except Exception:  # pylint: disable=broad-except
+                small = text
+            ctx["violations"].append((f"{rid}: {bad[0]}", {"kind": "avm-spec", "program": small, "all": bad[:5]}))
         d = corr.cmp_cfg(m[rid], i[rid])
         if d:
             nd += 1
@@ -648,6 +726,7 @@ def c19_extra(ctx):
                 ctx["broken"].append(f"correspondence (version/mode/cost) on program {text!r}: {d[0][:300]}")
     ctx["cov"]["program_level_cases"] = len(reqs)
     ctx["cov"]["program_level_disagreements"] = nd
+    ctx["cov"]["avm_oracle"] = "every program-level case also decided by tools/avmspec.py (version flags, mode / mixture / contract type, block costs against the AVM tables of Spec/AvmTables.v); directed cases: every opcode of the table at every version, every field under versions around its introduction, mode-specific opcodes in unreachable code"
 
 
 def c11_extra(ctx):
@@ -792,6 +871,24 @@ def c16_extra(ctx):
             ctx["violations"].append((f"`{text.strip()}` denotes the bytes 0x{want.hex()} but parses to `{y['str']}`",
                                       {"kind": "byte-constant-denotation", "line": text, "version": ver, "expected": f"{toks[0]} 0x{want.hex()}", "got": y["str"]}))
             break
+    # (d) signed immediates of the frame opcodes (int8 in the AVM): OUTSIDE the hand-written model, whose immediates are
+    #     natural numbers (DESIGN section 9) -- decided on the implementation alone: class, printed form, arity, round trip
+    neg = []
+    for mn, cls in (("frame_dig", "FrameDig"), ("frame_bury", "FrameBury")):
+        for kk in sorted({1, 2, 3, 127, 128, rng.randrange(1, 129)}):
+            for deco in ("{} -{}", "  {} -{}", "{} -{} // c", "\t{}\t-{}"):
+                neg.append((deco.format(mn, kk), cls, f"{mn} -{kk}"))
+    _, i3 = corr.run_both([("parseline", f"n{k}", t, [8]) for k, (t, _c, _s) in enumerate(neg)])
+    _, i4 = corr.run_both([("parseline", f"m{k}", st, [8]) for k, (_t, _c, st) in enumerate(neg)])
+    nneg = 0
+    for k, (t, cls, st) in enumerate(neg):
+        y, z = i3.get(f"n{k}"), i4.get(f"m{k}")
+        nneg += 1
+        if not isinstance(y, dict) or y.get("cls") != cls or y.get("str") != st or not isinstance(z, dict) or z.get("str") != st:
+            ctx["violations"].append((f"`{t.strip()}` (signed frame offset, valid TEAL v8) should parse to {cls} printing `{st}` and print back; got {y} / reparse {z}",
+                                      {"kind": "signed-frame-immediate", "line": t, "version": 8}))
+            break
+    ctx["cov"]["signed_frame_immediate_cases"] = nneg
     ctx["cov"]["spelling_twin_cases"] = nspell
     ctx["cov"]["roundtrip_cases"] = nrt
     ctx["cov"]["byte_constant_denotation_cases"] = nden
